@@ -40,7 +40,13 @@ type opT struct {
 	L    int    `json:"l"`
 	N    int    `json:"n"`
 	V    int    `json:"v,omitempty"`
+	// Discover: the predicate is interested in the names Ns only; for each of them that it is offered it asks loader L
+	// itself (Ask 1: HasEntry, 2: LoadEntry, 3: px.Load; 0: it looks at the name only)
+	Ask int   `json:"ask,omitempty"`
+	Ns  []int `json:"ns,omitempty"`
 }
+
+var askTab = []string{"name-only", "HasEntry", "LoadEntry", "px.Load"}
 
 type caseT struct {
 	Cfg   []ldefT `json:"cfg"`
@@ -53,6 +59,12 @@ func (o opT) String() string {
 	switch o.Kind {
 	case "Define":
 		return fmt.Sprintf("Define(l%d,%s,v%d)", o.L, nameTab[o.N], o.V)
+	case "Discover":
+		ns := make([]string, len(o.Ns))
+		for i, n := range o.Ns {
+			ns[i] = nameTab[n]
+		}
+		return fmt.Sprintf("Discover(l%d,predicate:%s,%v)", o.L, askTab[o.Ask], ns)
 	}
 	return fmt.Sprintf("%s(l%d,%s)", o.Kind, o.L, nameTab[o.N])
 }
@@ -170,6 +182,7 @@ type opRes struct {
 	B     bool
 	Text  string // error / fault text
 	Val   int    // value id (filled by world.resolve)
+	Names []int  // Discover: the names of the predicate's interest that were returned, in the order of opT.Ns
 }
 
 func (r opRes) gallina() string {
@@ -187,6 +200,8 @@ func (r opRes) gallina() string {
 		return "RErr"
 	case "fileerr":
 		return "RFileErr"
+	case "names":
+		return "RNames " + fmt.Sprint(r.Names)
 	}
 	return "RFault"
 }
@@ -206,6 +221,12 @@ func (r opRes) String() string {
 		return "error " + r.Text
 	case "fileerr":
 		return "instantiation failed " + r.Text
+	case "names":
+		ns := make([]string, len(r.Names))
+		for i, n := range r.Names {
+			ns[i] = nameTab[n]
+		}
+		return fmt.Sprint("discovered ", ns)
 	}
 	return r.Kind + " " + r.Text
 }
@@ -452,6 +473,52 @@ func (w *world) apply(c px.Context, o opT) (res opRes) {
 		return opRes{Kind: "defined", raw: e.Value()}
 	case "Has":
 		return opRes{Kind: "bool", B: l.HasEntry(tname(o.N))}
+	case "Discover":
+		want := map[string]int{}
+		for _, n := range o.Ns {
+			want[tname(n).MapKey()] = n
+		}
+		t := currentThread()
+		pred := func(tn px.TypedName) bool {
+			n, ok := want[tn.MapKey()]
+			if !ok {
+				return false
+			}
+			if o.Ask == 0 {
+				return true
+			}
+			// the predicate is user code: it asks the loader that it is discovering about the name that it is offered
+			if t != nil {
+				t.cbOrder[t.opIdx] = append(t.cbOrder[t.opIdx], n)
+				park(t, "discover.callback", nil)
+				t.quiet = true // (what the predicate asks is one step of the schedule)
+				defer func() { t.quiet = false }()
+			}
+			switch o.Ask {
+			case 1:
+				return l.HasEntry(tn)
+			case 2:
+				e := l.LoadEntry(c, tn)
+				return e != nil && e.Value() != nil
+			}
+			var ok2 bool
+			c.DoWithLoader(l, func() { _, ok2 = px.Load(c, tn) })
+			return ok2
+		}
+		found := map[string]bool{}
+		for _, tn := range l.Discover(c, pred) {
+			if found[tn.MapKey()] {
+				return opRes{Kind: "fault", Text: "Discover returned " + tn.String() + " twice"}
+			}
+			found[tn.MapKey()] = true
+		}
+		names := []int{}
+		for _, n := range o.Ns {
+			if found[tname(n).MapKey()] {
+				names = append(names, n)
+			}
+		}
+		return opRes{Kind: "names", Names: names}
 	}
 	panic("bad op " + o.Kind)
 }
